@@ -117,6 +117,7 @@ def coq_make(targets):
         sh(["python3", os.path.join(VERIF, "tools", "gen_isfinished.py"), REPO], check=True)
         sh(["python3", os.path.join(VERIF, "tools", "gen_opstate.py"), REPO], check=True)
         sh(["python3", os.path.join(VERIF, "tools", "gen_forms.py"), REPO], check=True)
+        sh(["python3", os.path.join(VERIF, "tools", "gen_lazy.py"), REPO], check=True)
         mk = os.path.join(COQ, "Makefile")
         if not os.path.exists(mk) or os.path.getmtime(mk) < os.path.getmtime(os.path.join(COQ, "_CoqProject")):
             sh(["coq_makefile", "-f", "_CoqProject", "-o", "Makefile"], cwd=COQ, check=True)
